@@ -15,6 +15,8 @@ use crate::{
 };
 
 static mut WKC: u16 = 0;
+/// Working counter for reads of the AL status CODE register (0x0134) when set; otherwise WKC.
+static mut WKC_CODE: Option<u16> = None;
 static mut DATA: [u8; 8] = [0; 8];
 static mut LAST_CMD: Option<Command> = None;
 
@@ -22,6 +24,9 @@ fn dev(req: &H1Request, resp: &mut H1Response) {
     unsafe {
         LAST_CMD = Some(req.command);
         resp.wkc = WKC;
+        if let (Some(w), Command::Read(crate::command::Reads::Fprd { register: 0x0134, .. })) = (WKC_CODE, req.command) {
+            resp.wkc = w;
+        }
         let mut i = 0;
         while i < 8 {
             resp.data[i] = DATA[i];
@@ -35,6 +40,7 @@ fn setup() -> (u16, [u8; 8]) {
     let data: [u8; 8] = kani::any();
     unsafe {
         WKC = wkc;
+        WKC_CODE = None;
         DATA = data;
     }
     install(dev);
@@ -150,6 +156,15 @@ pub fn c11_writes() {
         2 => {
             let r = run_ready(Command::apwr(kani::any(), kani::any()).ignore_wkc().send_receive::<u16>(&md, val));
             assert!(r.is_ok());
+            // every builder method keeps the caller's expectation: an explicit length after with_wkc / ignore_wkc
+            let r = run_ready(Command::fpwr(kani::any(), kani::any()).with_wkc(exp).with_len(2u16).send_receive_slice(&md, val));
+            if wkc == exp {
+                assert!(r.is_ok());
+            } else {
+                expect_wkc_err(&r, exp, wkc);
+            }
+            let r = run_ready(Command::fpwr(kani::any(), kani::any()).ignore_wkc().with_len(2u16).send_receive_slice(&md, val));
+            assert!(r.is_ok());
         }
         _ => {
             let r = run_ready(Command::lwr(kani::any()).send(&md, val));
@@ -246,5 +261,40 @@ pub fn c11_state_request() {
             };
             assert!(s == expect);
         }
+    }
+}
+
+
+//@ harness: c11_status
+//@ property: C11
+//@ tier: quick
+//@ config: h1
+//@ unwind: 10
+//@ timeout: 900
+//@ functions: SubDeviceRef::status; SubDeviceRef::state; WrappedRead::receive; AlStatusCode::unpack_from_slice
+//@ bounds: one status() call (AL status + AL status code reads) at a symbolic address; the device answers the status read (wkc 1, no error indication) but the working counter of the status CODE read is symbolic
+//@ assumes: transport replaced by the H1 scripted device
+#[kani::proof]
+#[kani::unwind(10)]
+pub fn c11_status() {
+    let (_tx, _rx, pdu_loop) = STORAGE.try_split().unwrap();
+    let md = MainDevice::new(pdu_loop, Timeouts::default(), MainDeviceConfig::default());
+    let (_wkc, mut data) = setup();
+    data[0] &= !0x10; // no error indication in the AL status word
+    let wkc_code: u16 = kani::any();
+    unsafe {
+        WKC = 1;
+        WKC_CODE = Some(wkc_code);
+        DATA = data;
+    }
+    let sd = SubDeviceRef::new(&md, kani::any(), ());
+    let r = run_ready(sd.status());
+    kani::cover!(r.is_ok());
+    kani::cover!(r.is_err());
+    if wkc_code != 1 {
+        // the device dropped out before the second read: no status is reported for it
+        assert!(matches!(r, Err(Error::WorkingCounter { expected: 1, received }) if received == wkc_code));
+    } else {
+        assert!(r.is_ok());
     }
 }
